@@ -543,7 +543,7 @@ theorem tblt_pc_flushPlain {s : State} (hm : MInv s) (pending : List (SplitStatu
     rw [← e]
     rfl
   · refine (Tr.of_flat (hm.sameTB hs he.ext) (cfgOf_of_same hm hs he.ext) he []
-      (charsEdits place (pendingChars pending)) [] ?_
+      (charsEdits place (pendingChars pending)) [] (FreshIds.nil _) ?_
       (annot_of_sub he.ext hm (by rw [hs.openElems]; exact fun _ h => h)) (by simp)).conseq ?_
     · intro tc htc
       rw [hflat tc htc]
